@@ -2,8 +2,8 @@
 # sweep.sh [quick|thorough] [ids...] : run the registered checks one after another, print exit codes.
 tier=${1:-quick}; shift
 ids="$@"
-[ -z "$ids" ] && ids=$(python3 -c "import json;print(' '.join(c['property_id'] for c in json.load(open('/verif/MANIFEST.json'))['checks']))")
-cd /verif
+cd "$(dirname "$0")/.."
+[ -z "$ids" ] && ids=$(python3 -c "import json;print(' '.join(c['property_id'] for c in json.load(open('MANIFEST.json'))['checks']))")
 for p in $ids; do
   s=$(date +%s)
   ./check $p --tier $tier > .work/sweep-$p-$tier.log 2>&1; rc=$?
